@@ -124,6 +124,17 @@ def gen_format(rng, obj, touchstone=False):
     return rng.choice([',', ', ', ' , ']).join(parts)
 
 
+def db_slack(e, p, dbonly):
+    """relative error of a magnitude whose decibel value is printed with p significant digits"""
+    if not dbonly or p >= MAXP or abs(e) == 0 or abs(e) != abs(e) or math.isinf(abs(e)):
+        return 0.0
+    db = abs(20.0 * math.log10(abs(e)))
+    if db < 1e-300:
+        return 0.0
+    half_unit = 0.5 * 10.0 ** (math.floor(math.log10(db)) + 1 - max(p, 1))
+    return 1.02 * (10.0 ** (half_unit / 20.0) - 1.0)
+
+
 def tol_rel(p):
     return 1.0 if p >= MAXP else 0.51 * 10.0 ** (1 - max(p, 1))
 
@@ -618,6 +629,8 @@ def verify_load(chk, c, dline, fline):
         p = c['dp']
         # R-L / R-C forms store an element value: the impedance is rebuilt with the (rounded) frequency in the file
         lc = tname == 'zin' and not any((pp or obj['type']) == 'zin' and kk == 'ri' for pp, kk in F['formats'])
+        # when decibels are the only matrix form of that type in the file, the digits requested are digits of the logarithm
+        dbonly = not any((pp or obj['type']) == tname and kk in ('ri', 'ma') for pp, kk in F['formats'])
         for k in range(obj['nf']):
             if not close_component(d['freqs'][k], c['orig']['freqs'][k], c['fp'], 0):
                 return 'frequency', 'frequency %d loaded as %r, saved from %r' % (k, d['freqs'][k], c['orig']['freqs'][k])
@@ -629,7 +642,7 @@ def verify_load(chk, c, dline, fline):
                     if exact:
                         if got != e:
                             return 'exact', 'maximum precision, rectangular: cell (%d,%d) frequency %d loaded as %r, saved %r' % (a, b, k, got, e)
-                    elif (got != got and e == e) or abs(got - e) > (3 * tol_rel(min(p, 15)) + 1e-12 + (2 * tol_rel(min(c['fp'], 15)) if lc else 0)) * max(abs(e), 1e-3 * sc) + 1e-12 * sc:
+                    elif (got != got and e == e) or abs(got - e) > (3 * tol_rel(min(p, 15)) + 1e-12 + (2 * tol_rel(min(c['fp'], 15)) if lc else 0) + db_slack(e, p, dbonly)) * max(abs(e), 1e-3 * sc) + 1e-12 * sc:
                         if p <= 2:
                             chk.count('low_precision_loose')
                             continue
